@@ -274,67 +274,72 @@ impl Tzif {
     /// be provided. This time does NOT exist due to the +1 jump from
     /// 02:00 -> 03:00 (but of course it does as a nanosecond value).
     pub fn v2_estimate_tz_pair(&self, seconds: &Seconds) -> TemporalResult<LocalTimeRecordResult> {
-        // We need to estimate a tz pair.
-        // First search the ambiguous seconds.
         let db = self.get_data_block2()?;
-        let b_search_result = db.transition_times.binary_search(seconds);
+        let local_seconds = seconds.0;
 
-        let estimated_idx = match b_search_result {
-            // NOTE: an exact hit belongs to the period that starts at that transition.
-            Ok(idx) => idx + 1,
-            Err(idx) => idx,
-        };
-        if estimated_idx == 0 {
+        // An instant with this wall-clock reading lies within the reading plus or minus the
+        // largest UTC offset: only the offset periods that reach into that window can hold one.
+        const WINDOW: i64 = 2 * 86_400;
+        let first_period = db
+            .transition_times
+            .partition_point(|transition| transition.0 < local_seconds - WINDOW);
+        let last_period = db
+            .transition_times
+            .partition_point(|transition| transition.0 <= local_seconds + WINDOW);
+
+        let mut records: Vec<LocalTimeRecord> = Vec::new();
+        for period in first_period..=last_period {
             // NOTE: time type 0 applies before the first transition.
-            return Ok(LocalTimeRecordResult::Single(
-                db.local_time_type_records[0].into(),
-            ));
+            let record: LocalTimeRecord = if period == 0 {
+                db.local_time_type_records[0].into()
+            } else {
+                get_local_record(db, period - 1).into()
+            };
+            if !records.contains(&record) {
+                records.push(record);
+            }
         }
-        if db.transition_times.len() <= estimated_idx {
-            // The transition time provided is beyond the length of
-            // the available transition time, so the time zone is
-            // resolved with the POSIX tz string.
-            return resolve_posix_tz_string(
-                self.posix_tz_string()
-                    .ok_or(TemporalError::general("Could not resolve time zone."))?,
-                seconds.0,
-            );
+        if last_period == db.transition_times.len() {
+            // The window reaches beyond the listed transitions.
+            if let Some(posix_tz_string) = self.posix_tz_string() {
+                let std = LocalTimeRecord::from_standard_time(&posix_tz_string.std_info);
+                if !records.contains(&std) {
+                    records.push(std);
+                }
+                if let Some(dst) = &posix_tz_string.dst_info {
+                    let dst = LocalTimeRecord::from_daylight_savings_time(&dst.variant_info);
+                    if !records.contains(&dst) {
+                        records.push(dst);
+                    }
+                }
+            }
         }
 
-        // The estimated index will be off based on the amount missing
-        // from the lack of offset.
-        //
-        // This means that we may need (idx, idx - 1) or (idx - 1, idx - 2)
-        let record = get_local_record(db, estimated_idx);
-        let record_minus_one = get_local_record(db, estimated_idx - 1);
+        // The reading denotes the instant `reading - offset` exactly when that offset is the
+        // one in force at that instant.
+        let mut found: Vec<(i64, LocalTimeRecord)> = Vec::new();
+        for record in records {
+            let instant = local_seconds - record.offset;
+            let (in_force, _) = self.record_at(instant)?;
+            if in_force.offset == record.offset && !found.iter().any(|(i, _)| *i == instant) {
+                found.push((instant, in_force));
+            }
+        }
+        found.sort_by_key(|(instant, _)| *instant);
 
-        // Q: Potential shift bugs with odd historical transitions? This
-        //
-        // Shifts the 2 rule window for positive zones that would have returned
-        // a different idx.
-        let shift_window = usize::from((record.utoff + record_minus_one.utoff) >= Seconds(0));
-
-        let new_idx = estimated_idx - shift_window;
-
-        let current_transition = db.transition_times[new_idx];
-        let current_diff = *seconds - current_transition;
-
-        // NOTE: time type 0 applies before the first transition.
-        let initial_record = if new_idx == 0 {
-            db.local_time_type_records[0]
-        } else {
-            get_local_record(db, new_idx - 1)
-        };
-        let next_record = get_local_record(db, new_idx);
-
-        // Adjust for offset inversion from northern/southern hemisphere.
-        let offset_range = offset_range(initial_record.utoff.0, next_record.utoff.0);
-        match offset_range.contains(&current_diff.0) {
-            // NOTE: a local time is skipped when the offset increases, whatever the DST flag says.
-            true if next_record.utoff > initial_record.utoff => Ok(LocalTimeRecordResult::Empty),
-            true => Ok((next_record, initial_record).into()),
-            false if current_diff < initial_record.utoff => Ok(initial_record.into()),
-            false => Ok(next_record.into()),
+        match found.as_slice() {
+            // The reading is skipped by a transition to a larger offset.
+            [] => Ok(LocalTimeRecordResult::Empty),
+            [(_, record)] => Ok((*record).into()),
+            // The reading is repeated by a transition to a smaller offset.
+            [(_, earlier), (_, later), ..] => {
+                let (std, dst) = if earlier.is_dst && !later.is_dst {
+                    (*later, *earlier)
+                } else {
+                    (*earlier, *later)
+                };
+                Ok(LocalTimeRecordResult::Ambiguous { std, dst })
+            }
         }
     }
 }
@@ -406,154 +411,6 @@ fn posix_transition_seconds(transition: &TransitionDate, year: i32) -> i64 {
         }
     };
     epoch_days * 86_400 + transition.time.0
-}
-
-/// Resolve the footer of a tzif file.
-///
-/// Seconds are epoch seconds in local time.
-#[inline]
-fn resolve_posix_tz_string(
-    posix_tz_string: &PosixTzString,
-    seconds: i64,
-) -> TemporalResult<LocalTimeRecordResult> {
-    let std = &posix_tz_string.std_info;
-    let Some(dst) = &posix_tz_string.dst_info else {
-        // Regardless of the time, there is one variant and we can return it.
-        return Ok(LocalTimeRecord::from_standard_time(&posix_tz_string.std_info).into());
-    };
-
-    // TODO: Resolve safety issue around utils.
-    //   Using f64 is a hold over from early implementation days and should
-    //   be moved away from.
-
-    // NOTE:
-    // STD -> DST == start
-    // DST -> STD == end
-    let (is_transition_day, is_dst) =
-        cmp_seconds_to_transitions(&dst.start_date.day, &dst.end_date.day, seconds)?;
-    if is_transition_day {
-        let time = utils::epoch_ms_to_ms_in_day(seconds * 1_000) as i64 / 1_000;
-        let transition_time = if is_dst == TransitionType::Dst {
-            dst.start_date.time.0
-        } else {
-            dst.end_date.time.0
-        };
-        let transition_diff = if is_dst == TransitionType::Dst {
-            std.offset.0 - dst.variant_info.offset.0
-        } else {
-            dst.variant_info.offset.0 - std.offset.0
-        };
-        let offset = offset_range(transition_time + transition_diff, transition_time);
-        match offset.contains(&time) {
-            true if is_dst == TransitionType::Dst => return Ok(LocalTimeRecordResult::Empty),
-            true => {
-                return Ok(LocalTimeRecordResult::Ambiguous {
-                    std: LocalTimeRecord::from_standard_time(std),
-                    dst: LocalTimeRecord::from_daylight_savings_time(&dst.variant_info),
-                })
-            }
-            _ => {}
-        }
-    }
-
-    match is_dst {
-        TransitionType::Dst => {
-            Ok(LocalTimeRecord::from_daylight_savings_time(&dst.variant_info).into())
-        }
-        TransitionType::Std => {
-            Ok(LocalTimeRecord::from_standard_time(&posix_tz_string.std_info).into())
-        }
-    }
-}
-
-/// The month, week of month, and day of week value built into the POSIX tz string.
-///
-/// For more information, see the [POSIX tz string docs](https://sourceware.org/glibc/manual/2.40/html_node/Proleptic-TZ.html)
-#[derive(Debug, Clone, Copy, PartialEq, Eq, PartialOrd, Ord)]
-struct Mwd(u16, u16, u16);
-
-impl Mwd {
-    fn from_seconds(seconds: i64) -> Self {
-        let month = utils::epoch_ms_to_month_in_year(seconds * 1_000) as u16;
-        let day_of_month = utils::epoch_seconds_to_day_of_month(seconds);
-        let week_of_month = day_of_month / 7 + 1;
-        let day_of_week = utils::epoch_seconds_to_day_of_week(seconds);
-        Self(month, week_of_month, u16::from(day_of_week))
-    }
-}
-
-fn cmp_seconds_to_transitions(
-    start: &TransitionDay,
-    end: &TransitionDay,
-    seconds: i64,
-) -> TemporalResult<(bool, TransitionType)> {
-    let cmp_result = match (start, end) {
-        (
-            TransitionDay::Mwd(start_month, start_week, start_day),
-            TransitionDay::Mwd(end_month, end_week, end_day),
-        ) => {
-            let mwd = Mwd::from_seconds(seconds);
-            let start = Mwd(*start_month, *start_week, *start_day);
-            let end = Mwd(*end_month, *end_week, *end_day);
-
-            let is_transition = start == mwd || end == mwd;
-            let is_dst = if start > end {
-                mwd < end || start <= mwd
-            } else {
-                start <= mwd && mwd < end
-            };
-
-            (is_transition, is_dst)
-        }
-        (TransitionDay::WithLeap(start), TransitionDay::WithLeap(end)) => {
-            let day_in_year = utils::epoch_time_to_day_in_year(seconds * 1_000) as u16;
-            let is_transition = *start == day_in_year || *end == day_in_year;
-            let is_dst = if start > end {
-                day_in_year < *end || *start <= day_in_year
-            } else {
-                *start <= day_in_year && day_in_year < *end
-            };
-            (is_transition, is_dst)
-        }
-        // TODO: do we need to modify the logic for leap years?
-        (TransitionDay::NoLeap(start), TransitionDay::NoLeap(end)) => {
-            let day_in_year = utils::epoch_time_to_day_in_year(seconds * 1_000) as u16;
-            let is_transition = *start == day_in_year || *end == day_in_year;
-            let is_dst = if start > end {
-                day_in_year < *end || *start <= day_in_year
-            } else {
-                *start <= day_in_year && day_in_year < *end
-            };
-            (is_transition, is_dst)
-        }
-        // NOTE: The assumption here is that mismatched day types on
-        // a POSIX string is an illformed string.
-        _ => {
-            return Err(
-                TemporalError::assert().with_message("Mismatched day types on a POSIX string.")
-            )
-        }
-    };
-
-    match cmp_result {
-        (true, dst) if dst => Ok((true, TransitionType::Dst)),
-        (true, _) => Ok((true, TransitionType::Std)),
-        (false, dst) if dst => Ok((false, TransitionType::Dst)),
-        (false, _) => Ok((false, TransitionType::Std)),
-    }
-}
-
-#[derive(Debug, Clone, Copy, PartialEq, Eq)]
-enum TransitionType {
-    Dst,
-    Std,
-}
-
-fn offset_range(offset_one: i64, offset_two: i64) -> core::ops::Range<i64> {
-    if offset_one < offset_two {
-        return offset_one..offset_two;
-    }
-    offset_two..offset_one
 }
 
 #[derive(Debug, Default)]
